@@ -333,13 +333,23 @@ func ruleC10R3(r *Run) {
 	if v == nil {
 		return
 	}
-	ph, ok := p.resolve(v.callback.Common.Value).(*ssa.Phi)
-	if !ok {
-		r.Undecided("(*T).cleanup#popped", v.callback.Instr.Pos(), "the invoked callback is not a phi of {nil, popped element}: "+p.expr(v.callback.Common.Value))
-		return
-	}
+	cbv := p.resolve(v.callback.Common.Value)
+	ph, ok := cbv.(*ssa.Phi)
 	var elem *ssa.UnOp
 	okNil := true
+	direct := false // the popped element is called directly (no "nil = stack empty" encoding)
+	if !ok {
+		if u, isLoad := cbv.(*ssa.UnOp); isLoad {
+			if _, isIdx := u.X.(*ssa.IndexAddr); isIdx {
+				elem, direct = u, true
+				ph = &ssa.Phi{} // no edges
+			}
+		}
+		if !direct {
+			r.Undecided("(*T).cleanup#popped", v.callback.Instr.Pos(), "the invoked callback is neither a phi of {nil, popped element} nor the popped element itself: "+p.expr(v.callback.Common.Value))
+			return
+		}
+	}
 	frame, fls := v.fn, v.ls // the function in which the pop happens: cleanup itself, or a pop helper it calls
 	var popCalls []*ssa.Call
 	var popFn *ssa.Function
@@ -450,17 +460,26 @@ func ruleC10R3(r *Run) {
 		r.Check("(*T).cleanup#pop.truncate-on-path", trunc.Pos(), !byp, "every path from the pop to the call truncates first", "the popped callback can be called without having been removed from the stack")
 	}
 	r.Check("(*T).cleanup#call-unlocked", v.callback.Instr.Pos(), len(v.ls[v.callback.Instr.(ssa.Instruction)]) == 0, "the callback is called outside the critical section (it may call t.Cleanup / t.Context)", "the cleanup callback is called while t.mu is held: a callback calling t.Cleanup or t.Failed deadlocks")
-	r.Check("(*T).cleanup#exit-only-when-empty", ph.Pos(), okNil && holds(p.facts(v.callback.Instr), p.expr(ph), "!=", "nil"), "the loop ends only when the stack is empty; otherwise the popped callback is called", "the callback loop can end while callbacks remain, or a nil callback can be called")
+	phKey := "<none>"
+	if direct {
+		// the element is popped and called only when the stack was found non-empty
+		cf := p.facts(elem)
+		nonEmpty := holds(cf, "builtin:len($t.cleanups)", ">", "0") || holds(cf, "builtin:len($t.cleanups)", "!=", "0") || holds(cf, "builtin:len($t.cleanups)", ">=", "1")
+		r.Check("(*T).cleanup#exit-only-when-empty", v.callback.Instr.Pos(), nonEmpty, "an element is popped and called only when the stack is non-empty; the loop ends when it is empty", "the callback is popped without the stack having been found non-empty")
+	} else {
+		phKey = p.expr(ph)
+		r.Check("(*T).cleanup#exit-only-when-empty", ph.Pos(), okNil && holds(p.facts(v.callback.Instr), p.expr(ph), "!=", "nil"), "the loop ends only when the stack is empty; otherwise the popped callback is called", "the callback loop can end while callbacks remain, or a nil callback can be called")
+	}
 	// every return of cleanup (not only the loop exit) is reached only with an empty stack
 	for _, ret := range returnsOf(v.fn) {
 		sets := p.pathConds(v.fn, ret.Block(), func(rl rel) bool {
-			return (rl.X == p.expr(ph) && rl.Y == "nil") || rl.X == "builtin:len($t.cleanups)"
+			return (rl.X == phKey && rl.Y == "nil") || rl.X == "builtin:len($t.cleanups)"
 		})
 		okAll := len(sets) > 0
 		for _, set := range sets {
 			ok := false
 			for _, lit := range set {
-				if lit == p.expr(ph)+" == nil" || lit == "builtin:len($t.cleanups) <= 0" || lit == "builtin:len($t.cleanups) == 0" {
+				if lit == phKey+" == nil" || lit == "builtin:len($t.cleanups) <= 0" || lit == "builtin:len($t.cleanups) == 0" {
 					ok = true
 				}
 			}
@@ -534,6 +553,7 @@ func ruleC10R4(r *Run) {
 
 func ruleC10R5(r *Run) {
 	p := r.P
+	ruleContextStoreRecheck(r)
 	fn := r.MustFn("(*T).Context")
 	if fn == nil {
 		return
@@ -698,6 +718,7 @@ func specC11() *propertySpec {
 			{"C11-R2", "attributed-to-own-case: the flag is consulted after cleanup and on the skip path of the same bracket invocation (shared with C02-R2)", ruleC02R2},
 			{"C11-R4", "cleanups-and-context-end-with-their-case: the context is cancelled and every registered cleanup has run when the bracket returns, even if a cleanup panics (shared with C10-R2/R3/R4)", func(r *Run) { ruleC10R2(r); ruleC10R3(r); ruleC10R4(r) }},
 			{"C11-R3", "no-shared-stream-state: a stream shared between test cases is re-seeded per case and does not record; its position counter, which is not reset, is only compared with other positions of the same stream; every other T gets its own stream", ruleC11R3},
+			{"C11-R5", "no-global-per-case-state: package-level variables are not written after initialisation: nothing outside the T survives from one test case to the next (shared with C15-R4)", ruleC15R4},
 		},
 	}
 }
@@ -1114,7 +1135,7 @@ func ruleStreamPositionRelative(r *Run) {
 			}
 		case *ssa.Parameter:
 			fn := x.Parent()
-			if strings.HasSuffix(p.fnName(fn), ").endGroup") && x.Name() == "i" {
+			if strings.HasSuffix(p.fnName(fn), ").endGroup") && p.paramName(x) == "i" {
 				return true // the position handed back by the caller
 			}
 			if fn.Parent() == nil {
